@@ -86,7 +86,7 @@ def translate():
     Returns (ok, message)."""
     msgs = []
     ok = True
-    for tool in ("translate.py", "py2lean.py", "py2lean_typed.py", "py2lean_frag.py"):
+    for tool in ("translate.py", "py2lean.py", "py2lean_typed.py", "py2lean_frag.py", "py2lean_comp.py"):
         tr = os.path.join(VERIF, "tools", tool)
         if not os.path.exists(tr):
             continue
